@@ -17,6 +17,10 @@ expectation built without it:
      minimal enclosing production -- to the same sub-tree shifted uniformly.
  (Q) every valid quoted-string body over {a " \\ / b n u 0 4 D 8 e-acute U+1F600} up to L raw characters:
      StringValue.value == ref/strings.decode_quoted.
+ (S) structured block-string bodies: an optional first line, then 2 and 3 content lines whose indentations run
+     through all combinations of {"", " ", "  ", TAB, TAB TAB, " TAB", "TAB ", "   "}, with each line terminator
+     (LF, CRLF, CR), with / without an empty or whitespace-only line in between and at the end (46 656 bodies):
+     value == BlockStringValue() (indentation is a COUNT of leading space / tab characters).
  (B) every block-string body over {a space tab LF CR " \\ U+2028 U+0085 U+00A0 U+000B} up to L raw
      characters that is the body of exactly one block-string token: value == BlockStringValue().
 """
@@ -116,6 +120,11 @@ def cases(tier):
     for c1 in B_ALPHA:
         for c2 in B_ALPHA:
             yield {"k": "b", "prefix": c1 + c2, "len": b["block_body_len"]}
+    # structured block strings: 2-3 content lines with every combination of mixed space/tab indentations
+    for k in (2, 3):
+        for first in T.BLOCK_FIRST:
+            for term in T.BLOCK_TERMS:
+                yield {"k": "bs", "first": first, "lines": k, "term": term}
     nmax = max(b["nodes"].values())
     for n in range(1, nmax + 1):
         for dialect in ("fragvars", "sdl"):
@@ -559,6 +568,14 @@ def check_case(case, st):
                 break
         st.n("block_bodies", cnt)
         st.mx("block_body_len", case["len"])
+    elif k == "bs":
+        cnt = 0
+        for body in T.block_family(case["first"], case["lines"], case["term"]):
+            cnt += 1
+            for cls, detail in check_block(body, st):
+                emit(cls, {"k": "b", "body": body}, detail)
+        st.n("structured_block_bodies", cnt)
+        st.nt("bs:%r" % sorted(case.items()))
     elif k == "t":
         b = BOUNDS[case["tier"]]
         for i in range(case["lo"], case["hi"]):
